@@ -96,6 +96,16 @@ class TAbs(Sort):
 _dt_cache = {}
 
 
+def _acc(dt, ci, ai, t):
+    "accessor application, reduced when t is syntactically the constructor"
+    try:
+        if z3.is_app(t) and t.decl().eq(dt.constructor(ci)):
+            return t.arg(ai)
+    except Exception:
+        pass
+    return dt.accessor(ci, ai)(t)
+
+
 def _dt(name, ctor, fields):
     if name not in _dt_cache:
         d = z3.Datatype(name)
@@ -120,10 +130,10 @@ class TList(Sort):
         return self.z3().constructor(0)(ln, arr)
 
     def len(self, t):
-        return self.z3().accessor(0, 0)(t)
+        return _acc(self.z3(), 0, 0, t)
 
     def arr(self, t):
-        return self.z3().accessor(0, 1)(t)
+        return _acc(self.z3(), 0, 1, t)
 
 
 class TOpt(Sort):
@@ -179,7 +189,7 @@ class TRec(Sort):
         return None
 
     def get(self, t, f):
-        return self.z3().accessor(0, self.fidx(f))(t)
+        return _acc(self.z3(), 0, self.fidx(f), t)
 
     def fsort(self, f):
         return self.fields[self.fidx(f)][1]
@@ -207,16 +217,16 @@ class TDict(Sort):
         return self.z3().constructor(0)(n, keys, idx, val)
 
     def n(self, t):
-        return self.z3().accessor(0, 0)(t)
+        return _acc(self.z3(), 0, 0, t)
 
     def keys(self, t):
-        return self.z3().accessor(0, 1)(t)
+        return _acc(self.z3(), 0, 1, t)
 
     def idx(self, t):
-        return self.z3().accessor(0, 2)(t)
+        return _acc(self.z3(), 0, 2, t)
 
     def val(self, t):
-        return self.z3().accessor(0, 3)(t)
+        return _acc(self.z3(), 0, 3, t)
 
     def dom(self, t, k):
         i = z3.Select(self.idx(t), k)
@@ -246,10 +256,24 @@ class TSet(Sort):
         return self.z3().constructor(0)(mem, card)
 
     def mem(self, t):
-        return self.z3().accessor(0, 0)(t)
+        return _acc(self.z3(), 0, 0, t)
 
     def card(self, t):
-        return self.z3().accessor(0, 1)(t)
+        return _acc(self.z3(), 0, 1, t)
+
+
+class TMap(Sort):
+    "total map (ghost / spec only): z3 array"
+
+    def __init__(self, k: Sort, v: Sort):
+        self.k = k
+        self.v = v
+
+    def name(self):
+        return "M_%s_%s" % (self.k.name(), self.v.name())
+
+    def z3(self):
+        return z3.ArraySort(self.k.z3(), self.v.z3())
 
 
 class TTup(Sort):
@@ -418,6 +442,12 @@ class VSet(Val):
         self.sort = sort
 
 
+class VMap(Val):
+    def __init__(self, t, sort: TMap):
+        self.t = t
+        self.sort = sort
+
+
 class VConcDict(Val):
     "dict with concrete structure: list of (key Val, value Val) -- keys must be pairwise distinct concretely"
 
@@ -484,6 +514,8 @@ def mk_val(t, sort: Sort):
         return VDict(t, sort)
     if isinstance(sort, TSet):
         return VSet(t, sort)
+    if isinstance(sort, TMap):
+        return VMap(t, sort)
     if isinstance(sort, TTup):
         dt = sort.z3()
         return VTuple([mk_val(dt.accessor(0, i)(t), s) for i, s in enumerate(sort.items)])
